@@ -7,6 +7,10 @@ TECH_A = "bounded symbolic execution of the real Python code (CrossHair 0.0.110 
 TECH_B = "; plus direct z3 obligations generated from the live source/AST (unbounded in the stated dimension)"
 
 CLAIMED = {
+    "C04": dict(
+        text="Bounded differential symbolic model checking of the lexer+parser against an independent recogniser of the RFC 9535 ABNF: a hole of k symbolic characters (each any Unicode scalar value) is placed at every character position of a corpus of valid queries covering every production (k=1; k=2 at every position in the thorough tier) and at the contexts where lax parsing is typical (k=2; k=3 thorough); on every path where the recogniser says 'not derivable/invalid' the real compile() must raise JSONPathError. Each path stands for a whole class of strings, so this decides rejection for every single-edit (and many double-edit) neighbour of the corpus, which examples cannot.",
+        note="Trusted: CrossHair str/regex models, z3, the reference recogniser vtools/ref/grammar.py (self-tested each run against every valid/invalid verdict recorded in the repository's tests), harness-side stubs listed in evidence (equality-scan ESCAPES/function registry, repr placeholder, symbolic int(), real-valued float, arithmetic hex kernels proved in C09). Outside: strings more than k adjacent characters away from every seed; the RFC-disputed blank space inside singular-query brackets of a comparand is don't-care.",
+        tech=TECH_A, design="§4 C04"),
     "C06": dict(
         text="Bounded symbolic model checking of the comparison table: both comparands are solver variables of every JSON kind (all 8x8 kind pairs incl. 'nothing'; unbounded ints, real-valued floats, strings over all code points, arrays/objects of symbolic scalars, depth-2 nests), the real _compare/_eq/_lt and the real find() path (literal, relative/absolute singular query, value()/length() results, missing members) are executed over all paths for all six operators and compared with a reference written from RFC 9535 section 2.3.5.2.2.",
         note="Trusted: CrossHair value models (floats modelled as reals, exact for ==/< because CPython compares int/float by exact value), z3, the reference table (self-tested against the expectations in tests/test_compare.py and tests/test_ietf_comparison.py). Bounds: strings <=2 (3 thorough) chars, containers <=2 entries (1 when both sides are containers), element ints within +/-1000, object member names drawn from a 3-name alphabet.",
